@@ -29,7 +29,7 @@ var c19Packages = []string{
 
 func c19(r *Report) {
 	p := r.P
-	r.Explanation = "Static decision of panic- and hang-freedom conditions in the packages that parse untrusted input (" + fmt.Sprint(len(c19Packages)) + " packages, production files): every construct of seven panic-capable kinds is enumerated from the SSA form — D1 unchecked type assertion, D2 dereference of an optional (json omitempty) pointer field, D3 dereference of a result whose error was discarded, D4 use of a pointer/interface field that the package itself compares with nil elsewhere, D5 explicit panic, D6 dereference of the result of a function that can return (nil, nil), explicitly or by tolerating its callee's error, D7 a number decoded from input (json/protobuf field) used as a slice bound, index or allocation size without dominating lower- and upper-bound comparisons — and each is either discharged by a recognised dominating guard (comma-ok assertion on the same access path, nil test on the same access path, value whose producers all return that concrete type), or is listed in the reviewed-safe table (one named construct + reason), or is reported. Termination: each resolver that follows references stored in untrusted documents keeps its fuel (depth gate before recursion, depth+1 passed), and the IBLT decode loop continues only after recording the peeled key in a set it refuses to revisit."
+	r.Explanation = "Static decision of panic- and hang-freedom conditions in the packages that parse untrusted input (" + fmt.Sprint(len(c19Packages)) + " packages, production files): every construct of eight panic-capable kinds is enumerated from the SSA form — D1 unchecked type assertion, D2 dereference of an optional (json omitempty) pointer field, D3 dereference of a result whose error was discarded, D4 use of a pointer/interface field that the package itself compares with nil elsewhere, D5 explicit panic, D6 dereference of the result of a function that can return (nil, nil), explicitly or by tolerating its callee's error, D7 a number decoded from input (json/protobuf field) used as a slice bound, index or allocation size without dominating lower- and upper-bound comparisons, D8 a slice converted to an array without a dominating test of its length — and each is either discharged by a recognised dominating guard (comma-ok assertion on the same access path, nil test on the same access path, value whose producers all return that concrete type), or is listed in the reviewed-safe table (one named construct + reason), or is reported. Termination: each resolver that follows references stored in untrusted documents keeps its fuel (depth gate before recursion, depth+1 passed), and the IBLT decode loop continues only after recording the peeled key in a set it refuses to revisit."
 	r.NotDecided = []string{"index out of range and slice bounds in general", "integer conversions, memory exhaustion (e.g. gzip expansion of status lists)", "panics inside dependencies", "termination of loops other than the listed fuel checks", "nil results of calls whose error was checked but which may return (nil, nil)"}
 	r.Assumptions = []string{"net/http recovers panics in request goroutines; panics in background goroutines (network handlers, notifiers, discovery refresh) terminate the process", "go-did leaves optional pointer fields nil when absent"}
 
@@ -71,6 +71,39 @@ func c19(r *Report) {
 		Check: CmpCheck("len(descriptorsNotMatched) > 0 is false", token.LSS, IntV(0), LenV(AnyV()), false)})
 	r.MustReach(MustReach{ID: "C19.reviewed.matchBasic-records-every-unmatched", Fn: mb, Cond: CmpCheck("candidate.VC == nil", token.EQL, FieldV("Candidate", "VC"), NilV(), true),
 		Target: Callee{Desc: "append", M: func(cc *ssa.CallCommon) bool { b, ok := cc.Value.(*ssa.Builtin); return ok && b.Name() == "append" }}})
+	msr := p.Func("vcr/pe", "PresentationDefinition", "matchSubmissionRequirements")
+	// the appends that feed the slice handed to sortCandidatesByCredential (= the slice the mapping loop ranges over)
+	feeds := map[ssa.Value]bool{}
+	if msr != nil {
+		var walk func(v ssa.Value, d int)
+		walk = func(v ssa.Value, d int) {
+			if v == nil || feeds[v] || d > 8 {
+				return
+			}
+			feeds[v] = true
+			switch x := v.(type) {
+			case *ssa.Phi:
+				for _, e := range x.Edges {
+					walk(e, d+1)
+				}
+			case *ssa.Call:
+				if b, isB := x.Call.Value.(*ssa.Builtin); isB && b.Name() == "append" {
+					walk(x.Call.Args[0], d+1)
+				}
+			}
+		}
+		for _, sc := range Calls(msr, Fn("vcr/pe", "", "sortCandidatesByCredential")) {
+			walk(CallArg(sc.Common(), 0), 0)
+		}
+	}
+	r.Gate(Gate{ID: "C19.reviewed.selected-candidates-have-a-credential", Fn: msr, Effect: InstrEffect("selectedCandidates = append(selectedCandidates, candidate)", func(in ssa.Instruction) bool {
+		c, ok := in.(*ssa.Call)
+		if !ok || !feeds[c] {
+			return false
+		}
+		b, isB := c.Call.Value.(*ssa.Builtin)
+		return isB && b.Name() == "append"
+	}), Check: CmpCheck("candidate.VC == nil is false", token.EQL, FieldV("Candidate", "VC"), NilV(), false)})
 	// positive control: the detectors must fire on the fixture
 	c19Fixture(r)
 
@@ -81,6 +114,7 @@ func c19(r *Report) {
 		Recursive: Fn("vdr/resolver", "DIDServiceResolver", "ResolveEx")})
 	c19DecodeFuel(r)
 	c19Termination(r)
+	c19LibraryPanicGuards(r)
 	// status lists do not recurse: a status list credential that itself carries a status is refused
 	r.Refuse(Refuse{ID: "C19.depth.statuslist-no-recursion", Fn: p.Func("vcr/revocation", "StatusList2021", "validate"),
 		Cond: CmpCheck("len(credentialStatus) > 0 / CredentialStatus != nil", token.EQL, FieldV("VerifiableCredential", "CredentialStatus"), NilV(), false)})
@@ -98,7 +132,7 @@ func c19Fixture(r *Report) {
 	for _, s := range sites {
 		got[s.Detector] = true
 	}
-	for _, d := range []string{"D1.unchecked-assertion", "D2.optional-pointer-deref", "D3.discarded-error-deref", "D4.nil-checked-elsewhere", "D5.explicit-panic", "D6.nil-nil-result-deref", "D7.input-number-as-bound"} {
+	for _, d := range []string{"D1.unchecked-assertion", "D2.optional-pointer-deref", "D3.discarded-error-deref", "D4.nil-checked-elsewhere", "D5.explicit-panic", "D6.nil-nil-result-deref", "D7.input-number-as-bound", "D8.slice-to-array"} {
 		if !got[d] {
 			r.Undecided("C19.fixture", rule, "", "detector "+d+" did not fire on the fixture")
 			return
@@ -114,11 +148,24 @@ func c19Fixture(r *Report) {
 			}
 		}
 	}
+	n8, ok8Flagged := 0, false
+	for _, s := range sites {
+		if s.Detector == "D8.slice-to-array" {
+			n8++
+			if s.Fn.Name() == "d8ok" {
+				ok8Flagged = true
+			}
+		}
+	}
+	if ok8Flagged || n8 != 1 {
+		r.Undecided("C19.fixture", rule, "", fmt.Sprintf("D8 precision control failed: %d D8 sites, guarded site flagged=%v", n8, ok8Flagged))
+		return
+	}
 	if okFlagged || n7 != 2 {
 		r.Undecided("C19.fixture", rule, "", fmt.Sprintf("D7 precision control failed: %d D7 sites, guarded site flagged=%v", n7, okFlagged))
 		return
 	}
-	r.OK("C19.fixture", rule, "", fmt.Sprintf("%d fixture sites reported by all seven detectors; the guarded D7 variant is not reported", len(sites)), false)
+	r.OK("C19.fixture", rule, "", fmt.Sprintf("%d fixture sites reported by all eight detectors; the guarded D7 variant is not reported", len(sites)), false)
 }
 
 // c19DecodeFuel: in Iblt.Decode every assignment `updated = true` (which is what lets the unbounded loop continue) is
@@ -377,4 +424,69 @@ func c19Regexp2Timeout(r *Report) {
 	if n == 0 {
 		r.Lost("C19.term.regexp2-match-timeout", rule, "no regexp2.Compile call found in production code (expected >= 1)")
 	}
+}
+
+// c19LibraryPanicGuards: keys and documents from remote parties are vetted before they reach library functions that panic
+// on them (each guard was added by a fix after a demonstrated crash; the rules keep the guard in front of the sink).
+func c19LibraryPanicGuards(r *Report) {
+	p := r.P
+	const jwkPkg = "github.com/lestrrat-go/jwx/v2/jwk"
+	const didPkg = "github.com/nuts-foundation/go-did/did"
+	ecOK := ErrCheck(Fn("crypto/jwx", "", "ValidateECCoordinates"))
+	// (1) EC coordinates: jwk.Key.Thumbprint / AssignKeyID / FromRaw panic (big.Int.FillBytes) on a coordinate larger than the curve
+	vt := p.Func("vdr/didnuts", "verificationMethodValidator", "verifyThumbprint")
+	r.Gate(Gate{ID: "C19.guard.ec-coordinates.network-document", Fn: vt, Effect: CallEffect(AnyOf(Fn(jwkPkg, "", "AssignKeyID"), p.FnOrImpl(jwkPkg, "Key", "Thumbprint"))), Check: ecOK})
+	fk := p.Func("vdr/didnuts", "ambassador", "findKeyByThumbprint")
+	r.Gate(Gate{ID: "C19.guard.ec-coordinates.update-signing-key-search", Fn: fk, Effect: CallEffect(p.FnOrImpl(jwkPkg, "Key", "Thumbprint")), Check: ecOK})
+	jr := p.Func("vdr/didjwk", "Resolver", "Resolve")
+	r.Gate(Gate{ID: "C19.guard.ec-coordinates.did-jwk", Fn: jr, Effect: CallEffect(AnyOf(Fn(didPkg, "", "NewVerificationMethod"), p.FnOrImpl(jwkPkg, "Key", "Raw"))), Check: ecOK})
+	ct := p.Func("auth/api/iam", "", "compareThumbprint")
+	r.Gate(Gate{ID: "C19.guard.ec-coordinates.remote-openid-configuration", Fn: ct, Effect: CallEffect(p.FnOrImpl(jwkPkg, "Key", "Thumbprint")), Check: ecOK})
+	// (2) Ed25519 key length: crypto/ed25519.Verify panics on a public key that is not 32 bytes
+	pk := p.Func("vdr/resolver", "", "publicKeyOf")
+	edLen := CmpCheck("len(edKey) != ed25519.PublicKeySize is false", token.EQL, LenV(AnyV()), IntV(32), true)
+	notEd := Check{Desc: "key is not an ed25519.PublicKey", Pass: IsFalse, Values: func(fn *ssa.Function) []ssa.Value {
+		var out []ssa.Value
+		for _, b := range fn.Blocks {
+			for _, in := range b.Instrs {
+				if ta, isTA := in.(*ssa.TypeAssert); isTA && ta.CommaOk && strings.HasSuffix(ta.AssertedType.String(), "ed25519.PublicKey") {
+					for _, ref := range *ta.Referrers() {
+						if ex, isEx := ref.(*ssa.Extract); isEx && ex.Index == 1 {
+							out = append(out, ex)
+						}
+					}
+				}
+			}
+		}
+		return out
+	}}
+	r.Gate(Gate{ID: "C19.guard.ed25519-length.resolved-key", Fn: pk, Effect: ReturnsNonNil(0), Check: edLen, Alt: []Check{notEd}})
+	r.Own(OwnSpec{ID: "C19.guard.ed25519-length.resolver-hands-out-keys-only-through-the-guard", Op: "call VerificationRelationship.PublicKey in vdr/resolver",
+		Sites: func() []Site {
+			var out []Site
+			for _, s := range p.CallSites(Fn(didPkg, "VerificationMethod", "PublicKey"), false) {
+				if strings.Contains(p.FuncName(s.Fn), "vdr/resolver.") {
+					out = append(out, s)
+				}
+			}
+			return out
+		}(), Min: 1, Owners: map[string]string{"vdr/resolver.publicKeyOf": "checks the Ed25519 key length"}})
+	dp := p.Func("crypto/dpop", "", "Parse")
+	r.Gate(Gate{ID: "C19.guard.ed25519-length.dpop-header-key", Fn: dp, Effect: CallEffect(Fn("github.com/lestrrat-go/jwx/v2/jwt", "", "ParseString")), Check: edLen, Alt: []Check{notEd}})
+	// (3) nil pointers go-did leaves in a parsed DID document: documents from the network and from web servers go through ParseDocument
+	cb := p.Func("vdr/didnuts", "ambassador", "callback")
+	r.Gate(Gate{ID: "C19.guard.did-document.network", Fn: cb, Effect: CallEffect(AnyOf(Fn("vdr/didnuts", "ambassador", "handleCreateDIDDocument"), Fn("vdr/didnuts", "ambassador", "handleUpdateDIDDocument"), p.FnOrImpl(didPkg, "Validator", "Validate"))),
+		Check: ErrCheck(Fn("vdr/resolver", "", "ParseDocument"))})
+	pd := p.Func("vdr/resolver", "", "ParseDocument")
+	r.Gate(Gate{ID: "C19.guard.did-document.every-relationship-has-a-method", Fn: pd, Effect: ReturnsNonNil(0), ForEach: true,
+		Check: CmpCheck("entry.VerificationMethod == nil is false", token.EQL, FieldV("VerificationRelationship", "VerificationMethod"), NilV(), false)})
+	r.Gate(Gate{ID: "C19.guard.did-document.no-null-method", Fn: pd, Effect: CallEffect(Fn(didPkg, "", "ParseDocument")), ForEach: true,
+		Check: CallCheck(Fn("std:bytes", "", "Equal"), -1, IsFalse), Skip: []Check{CallCheck(Fn("std:strings", "", "EqualFold"), -1, IsFalse), ErrCheck(Fn("std:encoding/json", "", "Unmarshal"))}, AllowEarlyExit: false})
+	// (4) null entries in a remote presentation definition's submission requirements
+	mt := p.Func("vcr/pe", "PresentationDefinition", "Match")
+	r.Gate(Gate{ID: "C19.guard.submission-requirements-not-null", Fn: mt, Effect: CallEffect(Fn("vcr/pe", "PresentationDefinition", "matchSubmissionRequirements")), ForEach: true,
+		Check: ErrCheck(Fn("vcr/pe", "SubmissionRequirement", "assertNotNull"))})
+	an := p.Func("vcr/pe", "SubmissionRequirement", "assertNotNull")
+	r.Gate(Gate{ID: "C19.guard.submission-requirements-not-null.self", Fn: an, Effect: SuccessReturn(), Check: CmpCheck("submissionRequirement == nil is false", token.EQL, ParamV("submissionRequirement"), NilV(), false)})
+	r.Gate(Gate{ID: "C19.guard.submission-requirements-not-null.nested", Fn: an, Effect: SuccessReturn(), ForEach: true, Check: ErrCheck(Fn("vcr/pe", "SubmissionRequirement", "assertNotNull"))})
 }
